@@ -605,6 +605,12 @@ def run_c04(run, thorough=False):
                       "meta": {"mn": mn, "pos": pos, "k": k, "stmt": 3, "label": True}})
         cases.append({"lines": gen_asm.L("L %s %s" % (mn, t), " NOP", " NOP", " NOP"), "tag": "label-expr",
                       "meta": {"mn": mn, "pos": pos, "k": k, "stmt": 0, "label": True}})
+    # the label sits on the ORG statement itself: statement index 0 with a non-zero address
+    for org in ("$3F00", "$0E00", "$100"):
+        for mn, t, pos, k in (("LDA", "L,X", "idx", 0), ("LDD", "[L,Y]", "idx", 0), ("LDX", "#L", "imm", 0), ("LDX", "#L+1", "imm", 1), ("LDA", "L+1,X", "idx", 1),
+                              ("JMP", "L", "mem", 0), ("LDD", "[L]", "extind", 0), ("LEAX", "L,PCR", "pcr", 0), ("LDU", "L-1,S", "idx", -1)):
+            cases.append({"lines": gen_asm.L("L ORG " + org, " NOP", " %s %s" % (mn, t), " NOP"), "tag": "label-expr",
+                          "meta": {"mn": mn, "pos": pos, "k": k, "stmt": 2, "label": True}})
     # number op label, in the order written (fix bd9f69a)
     for org in ("$1000", "$0E00"):
         for t, fn in (("#5-L", lambda a: 5 - a), ("#$4000-L", lambda a: 0x4000 - a), ("#$4000/L", lambda a: 0x4000 // a), ("#3*L", lambda a: 3 * a),
@@ -959,7 +965,8 @@ def c18_programs(rnd, n):
                 "LDA #$12", "LDX #%s" % ref, "LDD #%s+2" % ref, "JMP %s" % ref, "JSR %s-1" % ref, "LDA %s" % ref, "STB >%s" % ref,
                 "BRA %s" % ref, "BNE %s" % ref, "LBSR %s" % ref, "LEAX %s,PCR" % ref, "LDY [%s,PCR]" % ref, "LEAU %s+1,PCR" % ref,
                 "NOP", "CLRA", "PSHS A,B,X", "TFR X,Y", "LDA ,X+", "STA 5,Y", "LDD $1234,U", "LDX [%s]" % ref, "FCB 1,2,3", "FDB $1234", "RMB 3",
-                "FCC \"AB\"", "LDA #C1", "LDB C1,X", "CMPX #$4000"])
+                "FCC \"AB\"", "LDA #C1", "LDB C1,X", "CMPX #$4000", "LDA %s,X" % ref, "LDU [%s,Y]" % ref, "LDD [%s,PCR]" % ref, "STA %s+1,U" % ref,
+                "LEAY [%s]" % ref])
             body.append((lab, st))
         lines = ["C1 EQU $20", " ORG $%04X" % org] + ["%s %s" % (l, s) for l, s in body]
         for l in labels:
@@ -1020,7 +1027,11 @@ def run_c18(run, thorough=False):
         D = c["meta"].get("D", D)
         shifted = [l.replace("ORG $%04X" % org, "ORG $%04X" % (org + D)) for l in lines]
         names = c["meta"]["labels"]
-        new = ["ZED", "K2", "Lnew", "M1q", "W"] if rnd.random() < 0.5 else rnd.choice([["ZED", "K2", "Lnew", "M_1", "@W"], ["Z_D", "_K2", "L@new", "M_1_", "W@_1"]])
+        # new names: plain ones, names with '_' / '@', and names that are not register names but look like them (made of
+        # register letters, substrings of one another, differing in case)
+        new = ["ZED", "K2", "Lnew", "M1q", "W"] if rnd.random() < 0.4 else rnd.choice([
+            ["ZED", "K2", "Lnew", "M_1", "@W"], ["Z_D", "_K2", "L@new", "M_1_", "W@_1"], ["AB", "BD", "ABD", "XY", "SU"], ["AA", "DD", "CCR", "DPR", "PCX"],
+            ["XX", "YS", "UU", "AX", "BY"], ["La", "LA", "lA", "LAA", "LAAA"], ["A1", "B2", "D3", "X4", "PC5"]])
         rnd.shuffle(new)
         mapping = dict(zip(names, new))
         suffix = gen_asm.L(*rnd.choice([[" NOP", "EXTRA LDA #1", " BRA EXTRA"], ["TAIL FCB 1,2", " FDB TAIL"], [" LEAX LA,PCR", "NEW2 RTS"], [" RMB 300", " LDA LA"]]))
@@ -1091,8 +1102,8 @@ def run_c18(run, thorough=False):
             run.violate("C18: moving the origin changes the bytes of a statement that has no absolute reference to an own label (or a relative displacement changed)",
                         inp, a["bytes"], b["bytes"])
             continue
-        va = da.get("a", da.get("v", da.get("addr")))
-        vb = db.get("a", db.get("v", db.get("addr")))
+        va = next((da[k] for k in ("a", "v", "addr", "off") if da.get(k) is not None), None)
+        vb = next((db[k] for k in ("a", "v", "addr", "off") if db.get(k) is not None), None)
         if va is None or vb is None or (vb - va - D) % 65536 != 0:
             run.violate("C18: an absolute reference to an own label does not change by exactly D", inp, {"old": va, "D": D}, {"new": vb})
 
